@@ -36,6 +36,15 @@ Definition txn_prefix (t : txn) (n : nat) : txn :=
 Definition bal_before (s : bstate) (t : txn) (i : nat) (b : balance) : Prop :=
   exists st, txn_loop s (txn_prefix t i) = Ok st /\ l_bal st = b.
 
+(* the posting record the loop stores for posting p, given what process_posting returned for
+   it (None: the omitted posting's placeholder) *)
+Definition stored_posting (p : posting) (ep : option evaluated_posting) : oposting :=
+  match ep with
+  | Some e => {| o_account := p_account p; o_amount := pa_to_amount (ep_amount e);
+                 o_converted := ep_converted e |}
+  | None => {| o_account := p_account p; o_amount := a_zero; o_converted := None |}
+  end.
+
 (* ---- balancing value (C01 statement: lot price, else cost, else the amount itself) ---- *)
 
 (* a cost / lot annotation evaluates to one commodity and a number *)
